@@ -416,6 +416,93 @@ def r6(k: Kit) -> None:
     rep.floor('C04.R6', 'TCP channel open paths', sites, 2)
 
 
+KEY_CLASSES = ['dsa._DSAKey', 'rsa.RSAKey', 'ecdsa._ECKey', 'eddsa._EdKey',
+               'sk_ecdsa._SKECDSAKey', 'sk_eddsa._SKEd25519Key']
+
+# a compared field that stands for another encoded one
+FIELD_EQUIV = {'self._key.public_value': {'self._key.x', 'self._key.y'}}
+
+
+def r8(k: Kit) -> None:
+    """Trust decisions are `key in trusted_set`: they rest on the key
+    classes' __eq__/__hash__."""
+    rep = k.rep
+    idx = k.idx
+    rep.rule('C04.R8', 'for every key class: __eq__ is a conjunction of '
+             'self.F == other.F terms that '
+             'cover every field encode_ssh_public writes (the trusted / '
+             'revoked / CA membership tests compare keys this way, and the '
+             'signature is then verified with the presented key)')
+
+    def fields(e) -> Set[str]:
+        out = set()
+        for x in ast.walk(e):
+            if isinstance(x, ast.Attribute):
+                d = dotted(x)
+                if d and d.startswith('self._') and \
+                        not isinstance(idx_parent(x), ast.Attribute):
+                    out.add(d)
+        return out
+
+    from ..index import parent as idx_parent
+
+    def covers(have: Set[str], want: Set[str]) -> Set[str]:
+        miss = set()
+        for f in want:
+            if f in have:
+                continue
+            eq = FIELD_EQUIV.get(f)
+            if eq and eq <= have:
+                continue
+            miss.add(f)
+        return miss
+
+    for cq in KEY_CLASSES:
+        cls = idx.cls(cq)
+        enc = cls.methods.get('encode_ssh_public')
+        eqf = cls.methods.get('__eq__')
+        if not (enc and eqf):
+            rep.violation('C04.R8', f'{cq}|identity methods',
+                          'encode_ssh_public / __eq__ missing',
+                          cls.module.relpath)
+            continue
+        want = set()
+        for st in ast.walk(enc.node):
+            if isinstance(st, ast.Return) and st.value is not None:
+                want |= fields(st.value)
+        # __eq__: last return is the conjunction
+        rets = [st for st in ast.walk(eqf.node)
+                if isinstance(st, ast.Return) and st.value is not None]
+        conj = None
+        for r in rets:
+            if isinstance(r.value, ast.BoolOp):
+                conj = r.value
+        okshape = conj is not None and isinstance(conj.op, ast.And)
+        have = set()
+        if okshape:
+            for t in conj.values:
+                if isinstance(t, ast.Compare) and len(t.ops) == 1 and \
+                        isinstance(t.ops[0], ast.Eq):
+                    a, b = dotted(t.left), dotted(t.comparators[0])
+                    if a and b and a.startswith('self.') and \
+                            b == 'other.' + a[5:]:
+                        have.add(a)
+                    else:
+                        okshape = False
+                elif isinstance(t, ast.Call) and is_call(t, 'isinstance'):
+                    pass
+                else:
+                    okshape = False
+        miss = covers(have, want) if okshape else want
+        rep.check(okshape and not miss, 'C04.R8',
+                  key(eqf, 'equality covers the encoded public key'),
+                  f'compares {sorted(have)}; encoded {sorted(want)}',
+                  f'{cq}.__eq__ does not compare {sorted(miss)} (or is not a '
+                  'plain conjunction of self.F == other.F): a presented key '
+                  'differing only there is taken for the trusted one, and '
+                  'the handshake signature is verified with the presented '
+                  'parameters', eqf.loc())
+
 def run(idx, rep, tier):
     k = Kit(idx, rep)
     rep.assumptions += NOT_DECIDED
@@ -427,6 +514,7 @@ def run(idx, rep, tier):
     r3(k)
     r4(k)
     r6(k)
+    r8(k)
     # C04.R7: the known-hosts file options of the client config follow the
     # first-obtained-value rule (= the relevant rows of C18.R1): a later
     # `UserKnownHostsFile none` must not switch verification off
@@ -458,12 +546,14 @@ def run(idx, rep, tier):
         o.rule = 'C04.R3'
     # C04.R5: the trusted sets come from known_hosts matching; its
     # classification / negation / port rules are C17.R1-R2
-    from .c17 import r1 as c17r1, r2 as c17r2
+    from .c17 import r1 as c17r1, r2 as c17r2, wildcard_witnesses
     rep.rule('C04.R5', 'known_hosts pattern and classification rules '
-             '(= C17.R1, C17.R2): a negated element excludes the line, '
-             'markers select the right trust list')
+             '(= C17.R1, C17.R2, wildcard witnesses of C17.R5): a negated '
+             'element excludes the line, markers select the right trust '
+             'list, a host pattern matches the whole name')
     before = len(rep.obligations)
     c17r1(k)
     c17r2(k)
+    wildcard_witnesses(k, 'C04.R5')
     for o in rep.obligations[before:]:
         o.rule = 'C04.R5'
